@@ -18,6 +18,7 @@ import GrcVerif.MainSM
 import GrcVerif.Version
 import GrcVerif.FeatModel
 import GrcVerif.Cmap
+import GrcVerif.LineMap
 namespace Grc.Driver
 
 structure State where
@@ -588,6 +589,37 @@ def cmdExpand (st : State) : State × List String := Id.run do
   let st' := { st with ir := { st.ir with passes := passes } }
   (st', out ++ [s!"ok expanded optionalRules={nOpt} alternatives={nAlt}", "done"])
 
+def parsePLines (text : String) : List (LM.PLine × String) :=
+  (text.splitOn "\n").map fun line =>
+    if line.startsWith "#line " then
+      let rest := (line.drop 6).trimAscii.toString
+      let toks := (rest.splitOn " ").filter (· ≠ "")
+      match toks with
+      | n :: more =>
+        let file := match more with
+          | f :: _ => if f.startsWith "\"" then some ((f.drop 1).dropRight 1).toString else none
+          | [] => none
+        (LM.PLine.marker (n.toNat?.getD 0) file, line)
+      | [] => (LM.PLine.text, line)
+    else (LM.PLine.text, line)
+
+/-- C18: where does the (first) line containing `token` of a preprocessed file come from — by the specification
+    (markers) and by the model of the compiler's token-stream filter. -/
+def cmdLineMap (path token : String) : IO (List String) := do
+  try
+    let text ← IO.FS.readFile path
+    let pls := parsePLines text
+    let ls := pls.map (·.1)
+    match (pls.zipIdx.find? fun ((pl, raw), _) => pl == LM.PLine.text ∧ (raw.splitOn token).length > 1) with
+    | none => return [s!"notfound {token}"]
+    | some (_, i) =>
+      let p := i + 1
+      let spec := LM.originLine ls p
+      let specFile := LM.lastFile path (ls.take (p - 1))
+      let rep := LM.reported path ls p
+      return [s!"ok ppline={p} spec={specFile}({spec}) model={rep.1}({rep.2})"]
+  catch e => return [s!"error io: {e}"]
+
 def step (st : State) (toks : List String) : IO (State × List String) := do
   match toks with
   | [] => return (st, [])
@@ -686,6 +718,7 @@ def step (st : State) (toks : List String) : IO (State × List String) := do
   | ["expand"] =>
     let (st', ls) := cmdExpand st
     return (st', ls)
+  | ["linemap", path, token] => return (st, ← cmdLineMap path token)
   | ["c06"] =>
     match cmdC06 st with
     | .ok ls => return (st, ls)
